@@ -2,7 +2,7 @@
 import os, json, hashlib, collections, re
 from . import sexpr as S
 from . import runner
-from .gen import G, hx, mutate, pad_image
+from .gen import G, hx, mutate, pad_image, mutate_bye, mutate_sdes
 from .runner import ROOT, Infra
 
 # ------------------------------------------------------------------ helpers on case lines / observations
@@ -185,7 +185,12 @@ def gen_parse_inputs(g, h, n, kinds=None, malformed_ratio=0.35, with_padding=Tru
         e = entry_for_member(m)
         mn = ENTRY_MIN.get(e, 4)
         if g.chance(malformed_ratio):
-            b = mutate(g, img, hint_min=mn)
+            if e == 'bye' and g.chance(0.5):
+                b = mutate_bye(g, img)
+            elif e == 'sdes' and g.chance(0.5):
+                b = mutate_sdes(g, img)
+            else:
+                b = mutate(g, img, hint_min=mn)
             if g.chance(0.25):
                 b = mutate(g, b, hint_min=mn)
             out.append((e, b))
@@ -221,6 +226,14 @@ def gen_header_sweep(g, entries=None, full=False):
                     out.append('parse %s %s' % (e, hx(b)))
                     if cnt in (cap, cap + 1) and not pbit:
                         out.append('parse packet %s' % hx(b))
+                    if e == 'bye' and 4 + 4 * cnt < total and last is None:
+                        # the reason length octet around the bytes that remain after it
+                        off = 4 + 4 * cnt
+                        rem = total - off - 1
+                        for rl in (rem - 1, rem, rem + 1, rem + 2):
+                            b2 = bytearray(b)
+                            b2[off] = rl & 0xff
+                            out.append('parse bye %s' % hx(b2))
     return out
 
 # ------------------------------------------------------------------ round trips C02..C05
